@@ -335,5 +335,26 @@ func (c *ctx) streamS() error {
 		}
 		runSet(xs)
 	}
-	return c.runOps("bitset", cases)
+	if err := c.runOps("bitset", cases); err != nil {
+		return err
+	}
+	// values near the top of the int32 range: the bit set grows to 32 Mi words (256 MiB), so these few
+	// sequences run against the map-based reference only (the model column would need a 32 Mi-element list)
+	cases = nil
+	big := [][]int32{{2147483647}, {2147483647, 2147483647}, {2147483200, 5, 2147483200}, {1 << 30, 1<<30 + 64, 1 << 30},
+		{2147483647 - 63, 2147483647 - 64, 2147483647 - 63}, {-2147483648, 2147483647, -2147483648}}
+	if c.tier == "thorough" {
+		for i := 0; i < 12; i++ {
+			a := int32(2147483647 - c.r.Intn(1<<uint(8+c.r.Intn(22))))
+			big = append(big, []int32{a, a - int32(c.r.Intn(130)), a})
+		}
+	}
+	for _, xs := range big {
+		runSet(xs)
+	}
+	saved := c.model
+	c.model = nil
+	err := c.runOps("bitset", cases)
+	c.model = saved
+	return err
 }
